@@ -233,8 +233,48 @@ def mask_case(N):
                      "piecewise-linear interpolation with wrap-around")
 
 
+def measures_case(n, closed):
+    """Range/Azimut/Elevation/Doppler.from_orbit on a signal path with n nodes (closed: last node = first station, open: a
+    second station): each measure asks the orbit for the spherical form in the *first* node's frame, Range is r times the
+    number of legs n-1, the angles and the range-rate are passed through, date and path are kept."""
+    ins = [("r", "pos"), ("theta", "real"), ("phi", "real"), ("r_dot", "real")]
+
+    def run(env, v):
+        import types
+        ms = env.mod("beyond.utils.measures")
+        asked = []
+
+        class Orb:
+            date = "the-date"
+
+            def copy(self, frame=None, form=None):
+                asked.append((frame, form))
+                return types.SimpleNamespace(r=v["r"], theta=v["theta"], phi=v["phi"], r_dot=v["r_dot"])
+        mid = ["relay%d" % i for i in range(n - 2)]
+        path = ["staA"] + mid + (["staA"] if closed else ["staB"]) if n > 2 else ["staA", "sat"]
+        out = {}
+        ok = True
+        for cls, key in ((ms.Range, "range"), (ms.Azimut, "az"), (ms.Elevation, "el"), (ms.Doppler, "doppler")):
+            m = cls(path, None, None).from_orbit(Orb())
+            out[key] = m.value
+            ok = ok and m.path == tuple(path) and m.date == "the-date" and type(m) is cls and m.frame == "staA"
+        ok = ok and all(a == ("staA", "spherical") for a in asked) and len(asked) == 4
+        out["wiring"] = Holds(SB(z3.BoolVal(ok)) if env.symbolic else ok)
+        return out
+
+    def ref(env, v, out):
+        return {"range": (n - 1) * v["r"], "az": v["theta"], "el": v["phi"], "doppler": v["r_dot"], "wiring": None}
+    return Case(f"measures/{n}{'closed' if closed else 'open'}", ins, run, ref, timeout=30, tol=1e-12, abs_tol=1e-12,
+                desc=f"simulated measures on a {n}-node {'closed' if closed else 'open'} path: Range = (n-1) legs x topocentric r in "
+                     "the first node's frame; Azimut/Elevation/Doppler = theta/phi/r_dot of that spherical form")
+
+
 def all_cases(tier):
     cs = [geodetic_case(), orient_case(), topo_case()]
+    for n in range(2, 6 if tier == "quick" else 8):
+        cs.append(measures_case(n, False))
+        if n > 2:
+            cs.append(measures_case(n, True))
     for n in range(1, bounds(tier)["mask_entries"] + 1):
         cs.append(mask_case(n))
     return cs
